@@ -104,10 +104,6 @@ def frames(prop):
         'frame/recomputed_at-written-only-when-recomputing-or-invalidating', r'\brecomputed_at\s*\.\s*(set|replace)\(',
         {'recompute_one', 'invalidate_node'}, SRC, min_hits=2))
     add({'C06'}, lambda: F.in_order(
-        'frame/maybe_change_value-consults-cutoff-with-old-then-new', 'src/node.rs', 'maybe_change_value',
-        [r'self\s*\.\s*value_opt\s*\.\s*take\(\)', r'\.\s*should_cutoff\(\s*&\*\*\w+\s*,\s*\w+\.as_ref\(\)\s*\)',
-         r'self\s*\.\s*value_opt\s*\.\s*replace\(\s*Some\(\s*\w+\s*\)\s*\)', r'self\s*\.\s*maybe_change_value_manual\('], impl='impl Node'))
-    add({'C06'}, lambda: F.in_order(
         'frame/bind-lhs-change-never-cuts-off', 'src/incr.rs', 'bind',
         [r'set_cutoff\(&\*lhs_change,\s*Cutoff::Never\)'], impl=None))
     add({'C06'}, lambda: F.in_order(
@@ -132,14 +128,6 @@ def frames(prop):
     add({'C18'}, lambda: F.body_is(
         'frame/btreemap-symmetric_fold-is-exactly-self.symmetric_diff(other).fold(init,f)', 'incremental-map/src/symmetric_fold.rs', 'symmetric_fold',
         r'self\.symmetric_diff\(\w+\)\.fold\(\w+,\w+\)', impl='impl<K: Ord, V: PartialEq> SymmetricFoldMap<K, V> for BTreeMap<K, V>'))
-    add({'C18'}, lambda: F.body_is(
-        'frame/rc-btreemap-symmetric_fold-derefs-both-and-folds-the-diff', 'incremental-map/src/symmetric_fold.rs', 'symmetric_fold',
-        r'let(\w+)=self\.deref\(\);let(\w+)=(\w+)\.deref\(\);\1\.symmetric_diff\(\2\)\.fold\(\w+,\w+\)',
-        impl='impl<K: Ord, V: PartialEq> SymmetricFoldMap<K, V> for Rc<BTreeMap<K, V>>'))
-    add({'C18'}, lambda: F.body_is(
-        'frame/btreemap-symmetric_diff-builds-the-iterator-from-self-then-other', 'incremental-map/src/symmetric_fold.rs', 'symmetric_diff',
-        r'SymmetricDiff\{self_:self,other(:\w+)?,keys:MergeOnce::new\(self\.keys\(\),\w+\.keys\(\)\),?\}',
-        impl="impl<'a, K: Ord + 'a, V: PartialEq + 'a> SymmetricDiffMap<'a, K, V> for BTreeMap<K, V>"))
     add({'C18'}, lambda: F.body_is(
         'frame/ordmap-symmetric_fold-is-exactly-self.symmetric_diff(other).fold(init,f)', 'incremental-map/src/im_rc.rs', 'symmetric_fold',
         r'self\.symmetric_diff\(\w+\)\.fold\(\w+,\w+\)',
